@@ -73,7 +73,8 @@ def sort_names(names, ranks=None):
     from tola.assembly.assembly import Assembly
     from tola.assembly.scaffold import Scaffold
 
-    scs = [Scaffold(n, rank=(ranks[i] if ranks else 0)) for i, n in enumerate(names)]
+    # rank None in the list = constructed without a rank argument (the class default)
+    scs = [(Scaffold(n) if (ranks and ranks[i] is None) else Scaffold(n, rank=(ranks[i] if ranks else 0))) for i, n in enumerate(names)]
     a = Assembly("a", scaffolds=list(scs))
     by_name = a.scaffolds_sorted_by_name()
     a.smart_sort_scaffolds()
@@ -237,8 +238,110 @@ def law_unloc_prefix_names(ctx, rng):
         ctx.violation(sig, f"expected {exp}\n     got {got}", {"kind": "names", "names": [exp[i] for i in idx], "ranks": [2] * len(exp)})
 
 
+# ---- CLI leg: the order in the written files is the sorted order ---------------------------------
+SNAP = {"sources": None}
+
+
+def attach_cli():
+    from tola.assembly.scripts import pretext_to_asm as p2a
+
+    def on_call(args, kwargs):
+        asm_dict = args[0] if args else kwargs["asm_dict"]
+        SNAP["sources"] = [(str(k), [(s.rank, s.name) for s in a.scaffolds]) for k, a in asm_dict.items()]
+
+    contracts.attach(p2a, "name_assemblies", on_call=on_call, label="C20.name_assemblies")
+
+
+def decompose(names, blocks):
+    """can `names` be written as a concatenation of whole, distinct blocks?"""
+    if not names:
+        return True
+    for i, b in enumerate(blocks):
+        if b and names[: len(b)] == b and decompose(names[len(b):], blocks[:i] + blocks[i + 1:]):
+            return True
+    return False
+
+
+def check_cli_order(cr, ctx):
+    from tola.assembly.assembly import Assembly
+    from vf import cli_runs
+
+    ctx.case()
+    SNAP["sources"] = None
+    res = cli_runs.run_pretext_to_asm(cr, out_name="out.agp")
+    if res["exit_code"] != 0 or SNAP["sources"] is None:
+        ctx.count("cli:error-exit")
+        return
+    case = cli_runs.case_of(cr)
+    ctx.nontrivial(case["files"])
+
+    class N:  # name_natural_key only reads .name
+        def __init__(self, name):
+            self.name = name
+
+    blocks = []
+    for key, rows in SNAP["sources"]:
+        sk = [(r, Assembly.name_natural_key(N(n))) for r, n in rows]
+        if any(a > b for a, b in zip(sk, sk[1:])):
+            ctx.violation("assembly-handed-to-output-not-rank-then-name", f"assembly {key}: {rows}", case)
+            return
+        if len({r for r, _ in rows}) > 1:
+            ctx.count("cli:assembly-with-several-ranks")
+        blocks.append([n for _, n in rows])
+    nfiles = 0
+    for name, data in cli_runs.output_files(cr).items():
+        if not name.endswith(".agp"):
+            continue
+        nfiles += 1
+        got = []
+        for line in data.decode().splitlines():
+            if line and not line.startswith("#"):
+                obj = line.split("\t", 1)[0]
+                if not got or got[-1] != obj:
+                    got.append(obj)
+        if not decompose(got, blocks):
+            ctx.violation("written-order-is-not-the-sorted-order", f"{name}: {got}\nsorted assemblies: {SNAP['sources']}", case)
+            return
+        if sum(1 for b in blocks if b and set(b) <= set(got)) > 1:
+            ctx.count("cli:file-merged-from-several-assemblies")
+        if "all_haplotigs" in name:
+            ranks = {r for k, rows in SNAP["sources"] for r, n in rows if n in set(got)}
+            if len(ranks) > 1:
+                ctx.count("cli:all_haplotigs-with-several-ranks")
+    if nfiles:
+        ctx.count("cli:order-checked")
+
+
+def run_cli(shard, ctx):
+    import os
+    from pathlib import Path
+
+    from vf import cli_runs
+
+    attach_cli()
+    base = Path(os.environ.get("VERIF_SHARD_SCRATCH", "."))
+    for i in range(shard["n"]):
+        rng = rng_for(shard["seed"], "c20cli", shard["index"], i)
+        d = base / f"c{i}"
+        k = i % 3
+        if k == 0:
+            cr = cli_runs.text_case(rng, d, fmt="agp", tagged=True, two_hap=True, unprefixed=True, primary=True)
+        elif k == 1:
+            cr = cli_runs.text_case(rng, d, fmt="agp", tagged=True, two_hap=True, unprefixed=rng.random() < 0.5)
+        else:
+            cr = cli_runs.text_case(rng, d, fmt="tpf", tagged=True)
+        try:
+            check_cli_order(cr, ctx)
+        finally:
+            cli_runs.cleanup(cr)
+    ctx.count("monitor_evals:name_assemblies", contracts.evals("C20.name_assemblies"))
+
+
 def run(shard, ctx):
     attach(ctx)
+    if shard.get("kind") == "cli":
+        run_cli(shard, ctx)
+        return
     if shard.get("kind") == "prefix-names":
         for i in range(shard["n"]):
             law_unloc_prefix_names(ctx, rng_for(shard["seed"], "c20p", shard["index"], i))
@@ -258,21 +361,33 @@ def run(shard, ctx):
             names = [gen_name(rng) for _ in range(rng.randint(1, 9))]
             if rng.random() < 0.3:
                 names.append(rng.choice(names))
-            ranks = [rng.choice([0, 1, 2, 3]) for _ in names] if rng.random() < 0.5 else None
+            ranks = [rng.choice([0, 1, 2, 3, None]) for _ in names] if rng.random() < 0.5 else None
             check_set(ctx, names, ranks, perms=shard.get("perms", 6), rng=rng)
     ctx.count("monitor_evals:name_natural_key", contracts.evals("C20.name_natural_key"))
 
 
 def replay(case, ctx):
     attach(ctx)
+    if case.get("kind") == "cli":
+        import os
+        from pathlib import Path
+
+        from vf import cli_runs
+
+        attach_cli()
+        check_cli_order(cli_runs.restore_case(case, Path(os.environ.get("VERIF_SHARD_SCRATCH", ".")) / "replay"), ctx)
+        return
     check_set(ctx, case["names"], case.get("ranks"), perms=6, rng=rng_for(0, "replay"))
 
 
 def plan(tier, seed):
     n, per = (16, 2500) if tier == "quick" else (16, 40000)
-    return [{"kind": "names", "n": per, "perms": 6 if tier == "quick" else 20} for _ in range(n)] + [{"kind": "prefix-names", "n": 200 if tier == "quick" else 5000}]
+    return [{"kind": "names", "n": per, "perms": 6 if tier == "quick" else 20} for _ in range(n)] + [{"kind": "prefix-names", "n": 200 if tier == "quick" else 5000}] + [
+        {"kind": "cli", "n": 60 if tier == "quick" else 600} for _ in range(4)
+    ]
 
 
 def gates(c, tier):
-    need = {"sets:sorted": 2000, "law:numeric": 500, "law:roman": 500, "law:unloc": 500, "law:rename-resort": 200, "monitor_evals:name_natural_key": 50000}
+    need = {"sets:sorted": 2000, "law:numeric": 500, "law:roman": 500, "law:unloc": 500, "law:rename-resort": 200, "monitor_evals:name_natural_key": 50000,
+            "cli:order-checked": 100, "cli:all_haplotigs-with-several-ranks": 5, "cli:file-merged-from-several-assemblies": 5, "monitor_evals:name_assemblies": 100}
     return [f"{k}>={v} (got {c.get(k, 0)})" for k, v in need.items() if c.get(k, 0) < v]
